@@ -161,7 +161,9 @@ PROPS["C04"] = dict(
     runs=[
         dict(name="prod-hsw", src="number_harness.cpp", cfg="prod-hsw", env={}, args=["--scale", "10"]),
         dict(name="asan-hsw", src="number_harness.cpp", cfg="asan-hsw", env=ASAN_ENV),
-        dict(name="prod-wsm", src="number_harness.cpp", cfg="prod-wsm", env={}, tiers=("thorough",)),
+        dict(name="prod-wsm", src="number_harness.cpp", cfg="prod-wsm", env={}),
+        dict(name="prod-dyn", src="number_harness.cpp", cfg="prod-dyn", env={}),
+        dict(name="prod-dyn-nohsw", src="number_harness.cpp", cfg="prod-dyn+SONIC_VERIF_DISPATCH_NO_HASWELL", env={}, tiers=("thorough",)),
     ],
     require=["expected:integer-kind", "expected:double", "expected:overflow-rejected", "expected:subnormal", "expected:zero-double",
              "audit:pow10m128-row-exact-floor", "audit:lshift-rows", "context:root(EOF-terminated)", "halfway", "every_table_row",
